@@ -29,16 +29,18 @@ def main() -> int:
     variant = variant[4:] if second else variant
     none_tasks = frozenset(variant.split(",")) if variant else frozenset()
     env = make_env(inst)
+    from ..common import CaseTimeout, guarded
     if second:
         first = mkjob(inst, frozenset())
         try:
-            record(inst, first, env, precompute(first), seed0, sequential(inst, frozenset()))
-        except Exception:
+            record(inst, first, env, guarded(lambda: precompute(first), 20.0), seed0, sequential(inst, frozenset()))
+        except (Exception, CaseTimeout):
             pass        # (a failing pre-computation shows in the recorded job below)
     job = mkjob(inst, none_tasks)
+    from ..common import CaseTimeout, guarded
     try:
-        pre = precompute(job)
-    except Exception as e:
+        pre = guarded(lambda: precompute(job), 20.0)
+    except (Exception, CaseTimeout) as e:
         # the scheduler's pre-computation itself fails on this (well formed) job: the run never starts
         import traceback
         tb = traceback.extract_tb(e.__traceback__)
